@@ -5,6 +5,7 @@ import (
 	"fmt"
 
 	"verif/internal/engine"
+	"verif/internal/ev"
 	"verif/internal/kinds"
 	"verif/internal/rng"
 )
@@ -71,7 +72,21 @@ func collUnitsAllTypes(us *[]engine.Unit, cfg *engine.Config, seed uint64, confi
 func compoundUnits(us *[]engine.Unit, cfg *engine.Config, seed uint64, schemas int) {
 	for i := 0; i < schemas; i++ {
 		s := kinds.RandomSchema(rng.New(seed, 0xC0DEC, uint64(i)))
-		add(us, kinds.CompoundKind(s, i%2 == 0), cfg, seed)
+		k := kinds.CompoundKind(s, i%2 == 0)
+		if cfg.Prop == "C09" {
+			// the property is conditional on the codec contract: check it on the harness's own tuples first
+			name := k.Name + "/codec-contract"
+			*us = append(*us, engine.Unit{Name: name, Run: func(res *ev.Result) {
+				r := rng.New(seed, rng.HashString(name))
+				if msg := kinds.CodecContract(k, r, 3000); msg != "" {
+					res.Violate(ev.Violation{Prop: "C09", Kind: k.Name, Unit: name,
+						What: "the generated codec does not respect the contract (injective, prefix-free, order-preserving) the property is conditional on: " + msg})
+				}
+				res.Evaluations += 3000
+				res.Count("codec_contract_pairs", 3000)
+			}})
+		}
+		add(us, k, cfg, seed)
 	}
 }
 
